@@ -7,6 +7,8 @@ for d in glob.glob('/verif/seeded/*'):
     name = os.path.basename(d)
     i, n = name.split('-')
     det = m['detection'] if m.get('detected_by_quick_check') else 'NOT DETECTED: ' + m['detection']
+    if m.get('superseded'):
+        det += ' (SUPERSEDED: ' + m['superseded'] + ')'
     rows.append((i, int(n), '| %s | %s | %s | %s |' % (name, ', '.join('`%s`' % f for f in m['files']),
                  m['needs_to_manifest'].replace('|', '/'), det.replace('|', '/'))))
 rows.sort()
